@@ -74,8 +74,15 @@ def _same_state(a, b):
 
 def check_learner(case):
     facts = dict(model=case["model"]["cls"], method=str(case["method"]))
-    method = R.build_value(case["method"])
     datasets = [_data(d) for d in case["datasets"]]
+    if isinstance(case["method"], dict) and "bound" in case["method"]:
+        # a callable that happens to be a bound method of ANOTHER fitted model of the same class (a teacher): still "a callable applied to X"
+        teacher = clone(R.build(case["model"]))
+        Xt, yt, _ = datasets[0]
+        teacher.fit(np.ascontiguousarray(Xt[::-1]), yt)
+        method = getattr(teacher, case["method"]["bound"])
+    else:
+        method = R.build_value(case["method"])
     model = R.build(case["model"])
     w = _stl(model=model, method=method)
     eff = method if method is not None else _default_method(model)
@@ -193,6 +200,11 @@ def _learner_cases(draw, tier="quick"):
             hist.append(["fit", draw(st.integers(0, 1)), draw(st.booleans()), draw(st.sampled_from(["fit", "fit", "fit_transform"]))])
     if kind == "clf" and method == "decision_function" and any(h[0] == "set_model" for h in hist):
         method = "predict_proba"       # a replacement model may have no decision_function (model and method are interdependent)
+    if kind in ("reg", "clf") and draw(st.integers(0, 7)) == 0:
+        method = {"bound": "predict"}
+        for h in hist:
+            if h[0] == "fit":
+                h[1] = 0               # the teacher knows the columns of data set 0 only
     return dict(model=model, method=method, datasets=datasets, history=hist, Q=[])
 
 
